@@ -748,6 +748,36 @@ func applyMessageModel(fr *frame, args []value) value {
 		if !ac.hasCode || ac.program == 0 || depth > 3 {
 			return ""
 		}
+		if ac.program == 8 {
+			// factory: CREATE a child from one byte of zeroed memory (init code STOP, empty
+			// runtime code), RETURN the child's address (or 0 when the CREATE failed)
+			caFn := i.prog.ImportedPackage("github.com/ethereum/go-ethereum/crypto").Func("CreateAddress")
+			nonce := termOf(i.callMethod(fr, sdbI, "GetNonce", self))
+			if !nonce.isConst() {
+				nonce = IntConst(c.concretize(nonce))
+			}
+			child := call(i, fr, token.NoPos, caFn, []value{self, mkScalar(c, types.Uint64, nonce)}).(array)
+			i.callMethod(fr, sdbI, "SetNonce", self, mkScalar(c, types.Uint64, Add(nonce, IntConst64(1))))
+			if inList := i.callMethod(fr, sdbI, "AddressInAccessList", child); inList == false {
+				i.callMethod(fr, sdbI, "AddAddressToAccessList", child)
+			}
+			word := make([]value, 32)
+			for k := range word {
+				word[k] = uint8(0)
+			}
+			cn := termOf(i.callMethod(fr, sdbI, "GetNonce", child))
+			if c.branch(Eq(cn, IntConst64(0))) {
+				sn := i.callMethod(fr, sdbI, "Snapshot")
+				_ = sn
+				i.callMethod(fr, sdbI, "CreateAccount", child)
+				i.callMethod(fr, sdbI, "SetNonce", child, uint64(1))
+				copy(word[12:], []value(child))
+			} // else: contract address collision, CREATE pushes 0
+			if depth == 0 {
+				retData = word
+			}
+			return ""
+		}
 		if ac.program == 7 {
 			if depth != 0 {
 				unsupp("storage-cell program called from another contract")
@@ -965,7 +995,7 @@ func parseProgram(data []value) (int, string, bool) {
 			return 0, "", false
 		}
 		return id, string(rt[14:34]), true
-	case 6, 7:
+	case 6, 7, 8:
 		return id, "", true
 	}
 	return 0, "", false
